@@ -104,6 +104,10 @@ pub fn replay(sc: &Value) -> Value {
         .with_error_handler(move |e: MetricError| h2.lock().unwrap().push(format!("{:?}", e.kind())))
         .build();
     cadence_macros::set_global_default(client);
+    if sc["state"].as_str() == Some("set-twice") {
+        // a later set is documented as a no-op: the first client stays the global default
+        cadence_macros::set_global_default(StatsdClient::from_sink("second", Rec { lines: Arc::new(Mutex::new(vec![])), fail: false }));
+    }
     for refside in [false, true] {
         lines.lock().unwrap().clear();
         handled.lock().unwrap().clear();
